@@ -8,6 +8,7 @@ for d in checks/*/; do
   id=$(basename "$d")
   go test -tags verif -c -o ".bin/$id.test" "./checks/$id" || exit 1
 done
-# warm the build cache for the 32-bit Go oracle (standard library for GOARCH=386)
-GOARCH=386 go build -o /dev/null ./internal/oracle/warm 2>/dev/null || true
+# a build cache holding the GOARCH=386 standard library; the oracle copies it for every batch build
+rm -rf .cache/std386 && mkdir -p .cache/std386
+GOCACHE="$(pwd)/.cache/std386" GOARCH=386 CGO_ENABLED=0 go build -o /dev/null ./internal/oracle/warm || echo "warning: could not warm the 386 cache (the oracle then builds from a cold cache)"
 echo setup ok
